@@ -236,6 +236,97 @@ fn verify_view(bytes: &[u8], model: &[MEntry], comment: &[u8], new_count: usize,
     Ok(())
 }
 
+
+/// Bases whose names / file comments grow when the crate re-encodes them: CP437 bytes >= 0x80 become 2-3 byte
+/// UTF-8 sequences, invalid UTF-8 under the language flag becomes U+FFFD (3 bytes each). An append round may
+/// refuse such a base (new_append or finish returning an error); if it reports success the result must be a
+/// valid archive that still holds every old entry under its decoded name.
+#[derive(Clone, Debug, Serialize, Deserialize, Hash)]
+pub struct LongText {
+    /// 0 = the entry's name, 1 = its file comment, 2 = both
+    field: u8,
+    /// 0 = CP437 bytes >= 0x80 (flag clear), 1 = bytes that are invalid UTF-8 (flag set), 2 = valid 2-byte UTF-8 (flag set)
+    enc: u8,
+    len: u32,
+    by_drop: bool,
+}
+
+fn check_long_text(c: &LongText, info: &mut Info) -> Result<(), String> {
+    use crate::refzip::{Content, EntrySpec};
+    let n = c.len as usize;
+    let text: Vec<u8> = match c.enc % 3 {
+        0 => (0..n).map(|i| 0x80 + ((i * 7) % 0x7f) as u8).collect(),
+        1 => (0..n).map(|i| if i % 2 == 0 { 0xff } else { 0xc0 }).collect(),
+        _ => "\u{e9}".as_bytes().iter().copied().cycle().take(n & !1).collect(),
+    };
+    let utf8 = c.enc % 3 != 0;
+    let mut e = EntrySpec::simple(b"grows.txt", 8, Content::Text { seed: 2, len: 500 });
+    if c.field % 3 != 1 {
+        e.name = text.clone();
+        e.utf8 = utf8;
+    }
+    if c.field % 3 != 0 {
+        e.comment = text.clone();
+        e.utf8 = utf8;
+    }
+    let spec = ArchiveSpec::plain(vec![EntrySpec::simple(b"keep.txt", 0, Content::Text { seed: 1, len: 90 }), e, EntrySpec::simple(b"tail.bin", 0, Content::Rand { seed: 3, len: 40 })]);
+    let b = build::build(&spec).map_err(|e| format!("harness: {e}"))?;
+    let mut model: Vec<MEntry> = spec.entries.iter().map(|e| MEntry { name: refzip::decode_text(&e.name, e.utf8), content: Some(e.content.expand()), method: e.method, dos: (e.dos_date, e.dos_time), mode: model_mode(e.made_by, e.external_attr), password: None }).collect();
+    let (o, _) = observe(&b.bytes, &model).map_err(|e| format!("harness: base archive {e}"))?;
+    if o != model {
+        return Err("harness: base archive does not read as modelled".into());
+    }
+    info.nontrivial = true;
+    let grown = model[1].name.len() > 65535 || refzip::decode_text(&spec.entries[1].comment, utf8).len() > 65535;
+    info.label(if grown { "re-encoded text exceeds 65535 bytes" } else { "re-encoded text fits" });
+    let mut cur = Cursor::new(b.bytes.clone());
+    let ok = {
+        let w = match ZipWriter::new_append(&mut cur) {
+            Ok(w) => w,
+            Err(_) if grown => {
+                info.label("refused by new_append");
+                return Ok(());
+            }
+            Err(e) => return Err(format!("new_append refused a valid archive whose names and comments fit after re-encoding: {e}")),
+        };
+        let mut w = std::mem::ManuallyDrop::new(w);
+        // a large new entry: the result is longer than the base whatever the writer drops (no stale tail)
+        let add = Op::File { name: "added.bin".into(), opts: gen::Opts::plain(gen::Method::Stored), chunks: vec![Content::Rand { seed: 9, len: 150_000 }] };
+        match gen::apply(&mut w, &add) {
+            Ok(()) => {}
+            Err(_) if grown => {
+                info.label("refused by start_file");
+                return Ok(());
+            }
+            Err(e) => return Err(format!("appending to a valid archive failed: {e}")),
+        }
+        if c.by_drop {
+            unsafe { std::mem::ManuallyDrop::drop(&mut w) };
+            false
+        } else {
+            match w.finish() {
+                Ok(_) => true,
+                Err(_) if grown => {
+                    info.label("refused by finish");
+                    return Ok(());
+                }
+                Err(e) => return Err(format!("finish() after an append onto a valid archive failed: {e}")),
+            }
+        }
+    };
+    if !ok {
+        // completed by drop: errors are swallowed by design; nothing to claim when the text had to be refused
+        if grown {
+            return Ok(());
+        }
+    }
+    model.extend(model_of_program(&Program { ops: vec![Op::File { name: "added.bin".into(), opts: gen::Opts::plain(gen::Method::Stored), chunks: vec![Content::Rand { seed: 9, len: 150_000 }] }] }).0);
+    let end = cur.position() as usize;
+    let bytes = cur.into_inner();
+    info.label("append reported success");
+    verify_view(&bytes[..end.min(bytes.len()).max(1)], &model, &[], 1, &format!("after appending to a base whose entry has a {}-byte {} ({})", text.len(), ["name", "file comment", "name and file comment"][(c.field % 3) as usize], ["CP437 bytes >= 0x80", "invalid UTF-8 under the language flag", "valid UTF-8"][(c.enc % 3) as usize]))
+}
+
 fn m_len(p: &Program) -> usize {
     gen::entry_count(p)
 }
@@ -314,7 +405,7 @@ fn check_big(c: &Big) -> Result<(), String> {
 }
 
 pub fn run(ctx: &mut Ctx) {
-    ctx.rule("history = base x 0..R rounds of {new_append; 0..3 new entries of any kind/method incl. extra data, aligned, ZipCrypto; optional raw copies from another archive before or after them; optional comment change; finish or drop}. Bases: archives from this writer (C01 programs) and from the independent builder (data descriptors, forced ZIP64 fields and end records, junk prefix, CP437 names, DOS attributes, file comments, unsupported methods, shuffled central order, gaps) and from CPython zipfile (driver cpython_bases: seekable/unseekable sinks i.e. data descriptors, force_zip64, prepended data, cp437/UTF-8 names, DOS/Unix systems). After every round the crate reader and the independent (lenient) parser must see model = previous entries (name, content, method, timestamp, unix mode) followed by the new ones, and the archive comment unless replaced. big_bases: crate-written bases of 65534/65535 (thorough: 65533..70000) entries, bare or behind 777 prepended bytes (offsets relative to the archive start), x append rounds {[0],[1],[2,0],[1,1,1]} crossing the 16-bit entry-count limit. large_bases: hand-laid-out sparse foreign bases whose entries / header offsets lie beyond 4 GiB, bare and behind prepended data (archive-relative offsets), one append round, sizes / offsets / CRC of every old entry recovered by the independent parser and the reader. Non-trivial = foreign base, or >=2 rounds with at least one non-empty round.");
+    ctx.rule("history = base x 0..R rounds of {new_append; 0..3 new entries of any kind/method incl. extra data, aligned, ZipCrypto; optional raw copies from another archive before or after them; optional comment change; finish or drop}. Bases: archives from this writer (C01 programs) and from the independent builder (data descriptors, forced ZIP64 fields and end records, junk prefix, CP437 names, DOS attributes, file comments, unsupported methods, shuffled central order, gaps) and from CPython zipfile (driver cpython_bases: seekable/unseekable sinks i.e. data descriptors, force_zip64, prepended data, cp437/UTF-8 names, DOS/Unix systems). After every round the crate reader and the independent (lenient) parser must see model = previous entries (name, content, method, timestamp, unix mode) followed by the new ones, and the archive comment unless replaced. big_bases: crate-written bases of 65534/65535 (thorough: 65533..70000) entries, bare or behind 777 prepended bytes (offsets relative to the archive start), x append rounds {[0],[1],[2,0],[1,1,1]} crossing the 16-bit entry-count limit. large_bases: hand-laid-out sparse foreign bases whose entries / header offsets lie beyond 4 GiB, bare and behind prepended data (archive-relative offsets), one append round, sizes / offsets / CRC of every old entry recovered by the independent parser and the reader. long_text_bases: reference-built bases with an entry whose name and/or file comment is 300..65535 bytes of CP437 high bytes, of invalid UTF-8 under the language flag, or of valid UTF-8 - text that grows when the crate re-encodes it; one append round (finish or drop): a refusal is accepted when the re-encoded text no longer fits 16 bits, a reported success must be a valid archive with every old entry under its decoded name. Non-trivial = foreign base, or >=2 rounds with at least one non-empty round.");
     ctx.assume("file comments and extra fields of existing entries are not part of the claim (the property lists order, names, contents, methods, timestamps, modes, archive comment)");
     // hand-laid-out foreign bases with entries / header offsets beyond 4 GiB (sparse), bare and behind
     // prepended data with archive-relative offsets: one append round, every old value must survive
@@ -357,6 +448,22 @@ pub fn run(ctx: &mut Ctx) {
                 Ok(Err(m)) => Verdict::Fail(m),
                 Err(p) => Verdict::Fail(format!("PANIC: {p}")),
             }
+        },
+    );
+    // names / file comments that grow when re-encoded as UTF-8 (16-bit length fields of the rewritten directory)
+    let lens: Vec<u32> = ctx.q(vec![300, 21845, 21846, 32768, 65535], vec![1, 300, 16383, 21845, 21846, 21847, 32767, 32768, 32769, 40000, 65534, 65535]);
+    let lt_total = (lens.len() * 3 * 3 * 2) as u64;
+    ctx.enumerate::<LongText>(
+        "long_text_bases",
+        lt_total,
+        &|i| {
+            let i = i as usize;
+            LongText { len: lens[i % lens.len()], field: ((i / lens.len()) % 3) as u8, enc: ((i / (lens.len() * 3)) % 3) as u8, by_drop: (i / (lens.len() * 9)) % 2 == 1 }
+        },
+        &|c: &LongText, info: &mut Info| match catch(|| check_long_text(c, info)) {
+            Ok(Ok(())) => Verdict::Pass,
+            Ok(Err(m)) => Verdict::Fail(m),
+            Err(p) => Verdict::Fail(format!("PANIC: {p}")),
         },
     );
     let npy = ctx.q(200, 3000);
